@@ -17,6 +17,7 @@ ground state.  Core Lean only.
   `sgr_bg_rgb_effect`, colon forms `sgr_colon_idx_effect` (w:5:n), `sgr_colon_rgb_effect` (w:2::r:g:b),
   `sgr_ul_style_effect` (4:s); composition: `applySgr_step`, `applySgr_fuel`, `sgr_cons`, `sgr_cons_ext5`,
   `sgr_cons_ext2`, `sgr_two_effect` (`ESC [ a ; b m` = the two SGRs in sequence)
+* SGR frame: `sgr_frame` (SGR changes only pen – never its hyperlink –, `penKnown`, font selection, complaints), `sgr_st`
 * modes: `decset_effect`, `decrst_effect` (∀ n: = `decMode n on`), `decMode_st`
 * OSC 8: `osc8_open_effect`, `osc8_close_effect`
 * printing: `print_narrow_effect`, `print_narrow_cells`, `print_last_col_effect` (ASCII bytes through `feedByte`);
@@ -1194,6 +1195,94 @@ theorem putCombining_effect (t : Term) (cp : Int) (x y : Nat)
       { t with grid := t.grid.set x y { t.grid.get x y with
                  runes := (if (t.grid.get x y).runes.isEmpty then [32] else (t.grid.get x y).runes) ++ [cp], stamp := t.blocks } } := by
   simp [putCombining, hk, hl, addMark]
+
+end Term
+
+/-! ## SGR never touches the parser state, the cursor or the grid (so effects chain) -/
+
+namespace Term
+
+/-- what SGR may change: pen, `penKnown`, the font selection in `modes`, complaints -/
+def SgrFrame (t t' : Term) : Prop :=
+  t'.st = t.st ∧ t'.cx = t.cx ∧ t'.cy = t.cy ∧ t'.pendingWrap = t.pendingWrap ∧ t'.grid = t.grid ∧ t'.other = t.other ∧
+  t'.cursorKnown = t.cursorKnown ∧ t'.linkKnown = t.linkKnown ∧ t'.pen.link = t.pen.link ∧ t'.blocks = t.blocks ∧ t'.last = t.last
+
+theorem SgrFrame.refl (t : Term) : SgrFrame t t := by simp [SgrFrame]
+
+theorem SgrFrame.trans {a b c : Term} (h1 : SgrFrame a b) (h2 : SgrFrame b c) : SgrFrame a c := by
+  obtain ⟨a1, a2, a3, a4, a5, a6, a7, a8, a9, a10, a11⟩ := h1
+  obtain ⟨b1, b2, b3, b4, b5, b6, b7, b8, b9, b10, b11⟩ := h2
+  exact ⟨b1.trans a1, b2.trans a2, b3.trans a3, b4.trans a4, b5.trans a5, b6.trans a6, b7.trans a7, b8.trans a8,
+    b9.trans a9, b10.trans a10, b11.trans a11⟩
+
+theorem sgrSimple_link (p p' : Pen) (n : Nat) (h : sgrSimple p n = some p') : p'.link = p.link := by
+  have key : ((sgrSimple p n).map (fun q => q.link)).getD p.link = p.link := by
+    simp [sgrSimple, apply_ite (Option.map (fun q : Pen => q.link)),
+      apply_ite (fun o : Option (Option (String × String)) => o.getD p.link)]
+  rw [h] at key
+  simpa using key
+
+theorem setExt_link (p : Pen) (w : Nat) (c : ColorSel) : (setExt p w c).link = p.link := by
+  unfold setExt; split
+  · rfl
+  · split <;> rfl
+
+theorem sgrStep_frame (k : List Param → Term → Term) (p : Param) (rest : List Param) (t : Term)
+    (hk : ∀ r2 t', SgrFrame t' (k r2 t')) : SgrFrame t (sgrStep k p rest t) := by
+  have K : ∀ r2 t', SgrFrame t t' → SgrFrame t (k r2 t') := fun r2 t' h => h.trans (hk r2 t')
+  have C : ∀ msg, SgrFrame t (t.complain msg) := fun msg => by simp [SgrFrame, complain]
+  unfold sgrStep
+  split
+  · exact K _ _ (by simp [SgrFrame])
+  · exact K _ _ (by simp [SgrFrame])
+  · split
+    · split
+      · split
+        · exact K _ _ (by simp [SgrFrame, setExt_link])
+        · exact K _ _ (C _)
+      · split
+        · exact K _ _ (by simp [SgrFrame, setExt_link])
+        · exact K _ _ (C _)
+      · exact C _
+    · split
+      · exact K _ _ (by simp [SgrFrame])
+      · split
+        · exact K _ _ (by simp [SgrFrame])
+        · split
+          · rename_i p' hp'
+            exact K _ _ (by simp [SgrFrame, sgrSimple_link _ _ _ hp'])
+          · exact K _ _ (C _)
+  · split
+    · split
+      · split
+        · exact K _ _ (by simp [SgrFrame])
+        · exact K _ _ (C _)
+      · exact K _ _ (C _)
+    · split
+      · split
+        · split
+          · exact K _ _ (by simp [SgrFrame, setExt_link])
+          · exact K _ _ (C _)
+        · exact K _ _ (C _)
+      · exact K _ _ (C _)
+  · exact K _ _ (C _)
+
+theorem applySgr_frame : ∀ (f : Nat) (ps : List Param) (t : Term), SgrFrame t (applySgr f ps t) := by
+  intro f
+  induction f with
+  | zero => intro ps t; cases ps <;> exact SgrFrame.refl t
+  | succ f ih =>
+    intro ps t
+    cases ps with
+    | nil => exact SgrFrame.refl t
+    | cons p rest =>
+      rw [applySgr_step]
+      exact sgrStep_frame _ _ _ _ (fun r2 t' => ih r2 t')
+
+/-- SGR changes nothing but the pen (never its hyperlink), `penKnown`, the font selection and the complaints -/
+theorem sgr_frame (t : Term) (ps : List Param) : SgrFrame t (t.sgr ps) := applySgr_frame _ _ _
+
+theorem sgr_st (t : Term) (ps : List Param) : (t.sgr ps).st = t.st := (sgr_frame t ps).1
 
 end Term
 
